@@ -132,6 +132,9 @@ class BoundedTypesRemover(engines.engine.Engine, CompilerMixin):
         new_kind = problem_kind.clone()
         if new_kind.has_bounded_types():
             new_kind.unset_numbers("BOUNDED_TYPES")
+            if new_kind.has_timed_effects():
+                # the bounds are re-checked after every timed effect by a timed goal
+                new_kind.set_time("TIMED_GOALS")
         return new_kind
 
     def _compile(
